@@ -145,6 +145,61 @@ def rule_enumeration(ctx, res):
     res.check(okp, 'TABLE', pb.path, 'each node of the unsorted last bucket is indexed by its own shared prefix with the local id and starts not-handed-out')
 
 
+def rule_partition(ctx, res):
+    """sorted buckets and the unsorted last bucket partition the table: both helpers branch on the same
+    predicate len == MAX_BUCKETS (sibling agreement), so no bucket is enumerated by both"""
+    maxb = ctx.f.const_value('table::MAX_BUCKETS')
+
+    def full_lit(lit):
+        rel, a, b2, truth = lit
+        if rel == 'eq':
+            for x, y in ((a, b2), (b2, a)):
+                if isinstance(x, tuple) and x[0] == 'call' and x[1].endswith('::len') and is_param(strip_transparent(x[2][0]), 'buckets') and term_int(y) == maxb:
+                    return truth
+        return None
+
+    bi = ctx.body('table::bucket_iterator')
+    bs = Sym(bi)
+    bs.run()
+    got = {}
+    for p in bs.complete_paths():
+        f = [full_lit(literal(c)) for c in p.conds if full_lit(literal(c)) is not None]
+        g = find_calls(p.ret, '::get')
+        src = g[0][2][0] if g else None
+        while isinstance(src, tuple) and src[0] in ('ref', 'deref'):
+            src = src[1]
+        kind = '?'
+        if is_param(src, 'buckets'):
+            kind = 'all'
+        elif isinstance(src, tuple) and src[0] == 'call' and src[1].endswith('::index'):
+            rng = src[2][1]
+            e = rng[2].get('end') if rng[0] == 'agg' and rng[1].startswith('std::ops::RangeTo') else None
+            if e is not None and e[0] == 'bin' and e[1] == 'Sub' and term_int(e[3]) == 1 and find_calls(e[2], '::len'):
+                kind = 'all-but-last'
+        got[f[-1] if f else None] = kind
+    res.check(got == {True: 'all', False: 'all-but-last'}, 'TABLE', bi.path, 'sorted buckets = all buckets when the table is fully split (160), otherwise all but the last', detail=str(got))
+    pb = ctx.body('table::precompute_assorted_nodes')
+    ps = Sym(pb)
+    ps.run()
+    got = {}
+    for p in ps.paths:
+        if p.end not in ('return', 'loop'):
+            continue
+        f = [full_lit(literal(c)) for c in p.conds if full_lit(literal(c)) is not None]
+        k = f[-1] if f else None
+        touched = [e for e in p.effects if e[0] == 'call' and e[1] == 'bucket::Bucket::iter']
+        if not touched:
+            got.setdefault(k, set()).add('none' if (p.end == 'return' and agg_variant(p.ret) == 'None') else 'other')
+        else:
+            a = touched[0][2][0]
+            while isinstance(a, tuple) and a[0] in ('ref', 'deref'):
+                a = a[1]
+            last = a[0] == 'index' and is_param(root_of(a[1]), 'buckets') and a[2][0] == 'bin' and a[2][1] == 'Sub' and term_int(a[2][3]) == 1 and bool(find_calls(a[2][2], '::len'))
+            got.setdefault(k, set()).add('last' if last else 'other')
+    res.check(got == {True: {'none'}, False: {'last', 'none'}} or got == {True: {'none'}, False: {'last'}}, 'TABLE', pb.path,
+              'unsorted nodes = none when the table is fully split, otherwise the nodes of the last bucket (same predicate as the sorted-bucket iterator: no bucket is enumerated twice)', detail=str(got))
+
+
 def rule_next_index_in_bounds(ctx, res):
     b = ctx.body('table::next_bucket_index')
     res.touch(b)
@@ -192,4 +247,5 @@ def run(ctx, res):
     d = common.Dispatcher(ctx)
     c05.rule_one_reply(ctx, lib.Filtered(res, r'^nodes-src'), d)      # nodes/nodes6 of find_node and get_peers replies = find_closest_nodes(query target, query want)
     rule_enumeration(ctx, res)
+    rule_partition(ctx, res)
     rule_next_index_in_bounds(ctx, res)
